@@ -4,6 +4,7 @@ use std::path::Path;
 
 pub mod c03;
 pub mod soundness;
+pub mod refprop;
 pub mod c08;
 pub mod c09;
 pub mod c10;
@@ -19,6 +20,12 @@ pub fn run(session: &Session) -> i32 {
         "C01" => soundness::run(session, &soundness::C01),
         "C02" => soundness::run(session, &soundness::C02),
         "C03" => c03::run(session),
+        "C04" => refprop::run(session, &refprop::C04, "typed programs from the constants profile printed three ways - every literal as a literal, every literal c as the opaque `(*(mut T c))`, and a random subset hidden - must give the same value (incl. the effect log and every top-level name) or the same run-time error; a parse-time error of the literal version is accepted only when the harness's constant analysis finds an operation of that kind with a failing (or unclassifiable) constant operand; twins that differ in type-check acceptance are discarded. Non-trivial = the program contains literals; distinct by literal text."),
+        "C06" => refprop::run(session, &refprop::C06, "typed programs from the scoping profile (4-name identifier pool, shadowing in blocks / loop bodies / match arms / if-set bodies / function bodies, closures capturing names that are redeclared afterwards, cells shared by reference, named recursive functions, user iterators consumed by operators) compared with the reference interpreter on the final value of every top-level name, the effect log and run-time errors. Non-trivial = the reference saw a shadowing, a capture-then-redeclare or consumed an iterator whose body declares locals; distinct by program text."),
+        "C07" => refprop::run(session, &refprop::C07, "typed programs from the effects profile: subexpressions in every operand position are wrapped in tick calls tkN(k, e) that append k to a shared log; the log sequence (exactly once, left to right, unchosen branches and short-circuited operands silent) and all values must equal the reference's. Non-trivial = at least 2 ticks executed; distinct by program text."),
+        "C11" => refprop::run(session, &refprop::C11, "typed programs from the iterator profile (array iterators, pipelines of @ ? ? T, reducers $ $+ $* $& $| $], partition, for loops, shared stateful iterators, effectful callbacks) compared with the reference's sequence semantics incl. laziness and pull order through the tick log. Non-trivial = at least one iterator pull; distinct by program text."),
+        "C12" => refprop::run(session, &refprop::C12, "typed programs from the control profile (if / match with value, type and default arms / if-set / while-set / loop / while / for nested in functions with break, continue and return at every depth) compared with the reference. Non-trivial = a non-local exit was taken, an arm other than the first was selected, or a run-time type dispatch happened; distinct by program text."),
+        "C13" => refprop::run(session, &refprop::C13, "typed programs from the cells profile (cells in bindings, aliases, closures, arrays; all 12 assignment operators incl. failing compound assignments; assignments used as expressions) compared with the reference heap: every read, every value an assignment yields and the aliasing structure of the final values. Non-trivial = at least 2 writes with an aliased read, or a failing compound assignment; distinct by program text."),
         "C08" => c08::run(session),
         "C09" => c09::run(session),
         "C10" => c10::run(session),
@@ -40,6 +47,12 @@ pub fn replay(session: &Session, path: &Path) -> i32 {
         "C01" => crate::engine::replay(session, &soundness::C01, path),
         "C02" => crate::engine::replay(session, &soundness::C02, path),
         "C03" => crate::engine::replay(session, &c03::C03, path),
+        "C04" => crate::engine::replay(session, &refprop::C04, path),
+        "C06" => crate::engine::replay(session, &refprop::C06, path),
+        "C07" => crate::engine::replay(session, &refprop::C07, path),
+        "C11" => crate::engine::replay(session, &refprop::C11, path),
+        "C12" => crate::engine::replay(session, &refprop::C12, path),
+        "C13" => crate::engine::replay(session, &refprop::C13, path),
         "C08" => crate::engine::replay(session, &c08::C08, path),
         "C09" => crate::engine::replay(session, &c09::C09, path),
         "C10" => crate::engine::replay(session, &c10::C10, path),
